@@ -707,6 +707,17 @@ func c18exec(op string) Result {
 			continue // ':' chunks and toggles are REPL-path features
 		}
 		if what, desc := c18compare(res, pr, b, ci, isMini, miniBits); what != "" {
+			if cfg.gen != etoken.GENERICS_NONE {
+				// the two recorded consequences of the implicit CTI methods keep their keys; any other
+				// deviation under a GENERICS setting gets a key of its own, so that it cannot hide
+				// behind them
+				switch {
+				case what == "panic-differs" && strings.Contains(desc, "baseline panic=false") && strings.Contains(desc, "methods named"):
+				case what == "warnings-differ" && strings.Contains(desc, "redefined method"):
+				default:
+					what = "generics-" + what
+				}
+			}
 			r.Key = what + "-under-" + cfg.name()
 			r.Viol = fmt.Sprintf("%s path, options %s: %s: %s", path, cfg.name(), what, desc)
 			r.Tags = append(r.Tags, "deviates")
@@ -722,7 +733,7 @@ func c18gen(r *rand.Rand, tier string, emit func(string)) {
 	c18tier = tier
 	ncfg := len(c18configs(tier))
 	n := 0
-	group := 120
+	group := 240
 	put := func(op string) {
 		if n%group == 0 {
 			emit("reset")
@@ -735,11 +746,24 @@ func c18gen(r *rand.Rand, tier string, emit func(string)) {
 	for _, p := range c18corpus() {
 		src(p)
 	}
+	for _, p := range c18constFixed() {
+		src(p)
+	}
+	for _, p := range c18embedPrograms(tier) {
+		src(p)
+	}
+	nc := 40
+	if tier == "thorough" {
+		nc = 1500
+	}
+	for i := 0; i < nc; i++ {
+		src(c18constProgram(r))
+	}
 	// 2. mini-language programs: systematic, then random
 	for _, m := range c18miniSystematic() {
 		put(m)
 	}
-	nm, n05, n07 := 150, 60, 60
+	nm, n05, n07 := 110, 40, 40
 	if tier == "thorough" {
 		nm, n05, n07 = 4000, 1500, 1500
 	}
